@@ -1,6 +1,6 @@
 (* C01link — the first instance of C01_full with no gap: for every program q of the fragment F0 /\ F
    (identity, scalar literals, pipe, comma, empty, t[], t.k, if/else, try/catch and ?, error, length,
-   `src as $x | body`, $x, array construction [q], reduce) that compiles, every input v (integers, strings, arrays, objects), the final
+   `src as $x | body`, $x, array construction [q], reduce, the alternative operator //) that compiles, every input v (integers, strings, arrays, objects), the final
    code emitted for q (coq/c01vm/Compile.v: tied to compiler.go by instruction-list comparison on every
    sampled program) run on the VM (coq/c01vm/VM.v, natives = Sem's) produces exactly the outputs and the ending
    that the reference semantics Sem.observe gives for the translated program (tied to gojq by the C01
@@ -62,6 +62,22 @@ Example C01link_nonvacuous_cells :
       let o := observe builtin_defs 60 50 false [] (emb q') (emb_v v) in
       let r := c01vm.VM.run sem_natives code 600 (c01vm.VM.init v) in
       o = ([VArr [VInt 0]], EndNormal) /\ fst o = map emb_v (fst r) /\ end_rel (snd o) (snd r)
+  | _, _ => False
+  end.
+Proof. vm_compute. repeat split; reflexivity. Qed.
+
+(* ... and with //:  [.[] | (.a? // "none")] on [{"a":1},{"a":null},2] *)
+Example C01link_nonvacuous_alt :
+  let q := c01vm.Syntax.QArray (c01vm.Syntax.QPipe (c01vm.Syntax.QIter c01vm.Syntax.QId)
+             (c01vm.Syntax.QAlt (c01vm.Syntax.QTry (c01vm.Syntax.QIndex c01vm.Syntax.QId (c01vm.Syntax.VStr (codes "a"))) None)
+                                (c01vm.Syntax.QConst (c01vm.Syntax.VStr (codes "none"))))) in
+  let v := c01vm.Syntax.VArr [c01vm.Syntax.VObj [(codes "a", c01vm.Syntax.VNum 1)];
+                              c01vm.Syntax.VObj [(codes "a", c01vm.Syntax.VNull)]; c01vm.Syntax.VNum 2] in
+  match tr q, c01vm.Compile.compile q with
+  | Some q', Some code =>
+      let o := observe builtin_defs 60 50 false [] (emb q') (emb_v v) in
+      let r := c01vm.VM.run sem_natives code 600 (c01vm.VM.init v) in
+      o = ([VArr [VInt 1; VStr (codes "none"); VStr (codes "none")]], EndNormal) /\ fst o = map emb_v (fst r) /\ end_rel (snd o) (snd r)
   | _, _ => False
   end.
 Proof. vm_compute. repeat split; reflexivity. Qed.
